@@ -151,6 +151,8 @@ def main():
             goals += lemma_goals
         except OutOfSubset as e:
             out_of_reach.append({"contract": "lemmas:" + a.prop, "reason": str(e)})
+        except (AttributeError, TypeError, IndexError, AssertionError, ValueError, KeyError, z3.Z3Exception) as e:
+            out_of_reach.append({"contract": "lemmas:" + a.prop, "reason": "lemma no longer fits the code (%s: %s)" % (type(e).__name__, str(e)[:200])})
     timeout = float(os.environ.get("VERIF_GOAL_TIMEOUT") or (60 if a.tier == "quick" else 180))
     baseline_p = os.path.join(HERE, "specs", "baseline_goals.json")
     baseline = json.load(open(baseline_p)) if os.path.exists(baseline_p) else {}
